@@ -197,6 +197,10 @@ type reuseCase struct {
 	Close  []int `json:"indices_closed"` // indices into the first batch (taken mod, duplicates skipped)
 	Second int   `json:"channels_created_afterwards"`
 	Procs  int   `json:"gomaxprocs"`
+	// Ack: the server acknowledges every teardown with a header-only CLOSE packet on that
+	// channel right away - the reader has processed it before the write of the teardown returns,
+	// while the channel is still registered
+	Ack bool `json:"teardown_acknowledged_at_once"`
 }
 
 func runReuse(c reuseCase) (f *vh.Failure) {
@@ -250,9 +254,36 @@ func runReuse(c reuseCase) (f *vh.Failure) {
 		}
 		closed[i] = true
 		var err error
-		if !within(5*time.Second, func() { err = first[i].Close() }) || err != nil {
+		if c.Ack {
+			id := first[i].VerifID()
+			seen := e.pipe.WrittenLen()
+			e.pipe.OnWrite(func() {
+				// the teardown is among the packets written since (whatever their sizes)
+				w := e.pipe.Written()
+				found := false
+				for at := seen; at+8 <= len(w); {
+					if w[at] == rc.BufClose {
+						found = true
+					}
+					n := int(w[at+2])<<8 | int(w[at+3])
+					if n < 8 {
+						break
+					}
+					at += n
+				}
+				if !found {
+					return
+				}
+				e.pipe.OnWrite(nil)
+				e.pipe.Feed(rc.Packet{Type: rc.BufClose, Channel: uint16(id), Status: rc.StatEOM}.Bytes())
+				e.pipe.WaitDrained(3 * time.Second)
+			})
+		}
+		// (with the acknowledgement delivered to the channel, Close may report what remained in it)
+		if !within(5*time.Second, func() { err = first[i].Close() }) || (err != nil && !c.Ack) {
 			return vh.Failf("C12/close", "%+v: Close of channel %d: %v", c, first[i].VerifID(), err)
 		}
+		e.pipe.OnWrite(nil)
 		closedIDs = append(closedIDs, first[i].VerifID())
 		lastClosed = lastClosed || i == len(first)-1
 	}
@@ -309,6 +340,9 @@ func runReuse(c reuseCase) (f *vh.Failure) {
 		vh.NonTrivial(fmt.Sprintf("%+v", c))
 	}
 	vh.Label("lifecycle:create-after-close")
+	if c.Ack {
+		vh.Label("lifecycle:teardown-acknowledged-while-channel-registered")
+	}
 	return nil
 }
 
@@ -319,6 +353,7 @@ func TestCreateAfterClose(t *testing.T) {
 		if rapid.Bool().Draw(rt, "closenewest") {
 			c.Close = append(c.Close, c.First-1)
 		}
+		c.Ack = rapid.Bool().Draw(rt, "ack")
 		vh.Sample("create-after-close", c)
 		return c
 	}
@@ -488,4 +523,94 @@ func TestCloseDuringSend(t *testing.T) {
 		return c
 	}
 	vh.Check(t, "TestCloseDuringSend", vh.N(40, 1200), gen, runCloseDuringSend)
+}
+
+// ---- a long-lived connection: hundreds of logical channels are created and closed again over
+// time, only a few are open at once. Every new channel is created without an error, gets an id
+// no channel of the connection had before, announces exactly that id to the server, and
+// receives what the server sends for that id.
+
+type manyCase struct {
+	Total int `json:"channels_created_over_time"`
+	Open  int `json:"open_at_once"`
+	Procs int `json:"gomaxprocs"`
+}
+
+func runManyChannels(c manyCase) (f *vh.Failure) {
+	defer func() {
+		if r := recover(); r != nil {
+			vh.CheckHarnessPanic(r)
+			f = vh.Failf("C12/panic", "panic: %v", r)
+		}
+	}()
+	old := runtime.GOMAXPROCS(c.Procs)
+	defer runtime.GOMAXPROCS(old)
+	e := newLifeEnv(100)
+	defer e.stop()
+	var err error
+	if !within(5*time.Second, func() { _, err = e.conn.NewChannel() }) || err != nil {
+		vh.HarnessBug("main channel: %v", err)
+	}
+	seen := map[int]int{0: 0}
+	var open []*tds.Channel
+	for n := 1; n <= c.Total; n++ {
+		where := fmt.Sprintf("logical channel number %d of the connection (%d open at this time)", n, len(open))
+		var ch *tds.Channel
+		if !within(5*time.Second, func() { ch, err = e.conn.NewChannel() }) {
+			return vh.Failf("C12/newchannel", "%s: NewChannel did not return within 5 s", where)
+		}
+		if err != nil {
+			return vh.Failf("C12/newchannel", "%s: NewChannel: %v", where, err)
+		}
+		id := ch.VerifID()
+		if prev, dup := seen[id]; dup {
+			return vh.Failf("C12/channel-id-not-distinct", "%s got id %d, which channel number %d has (or had) on this connection", where, id, prev)
+		}
+		seen[id] = n
+		e.pipe.Feed(retPacket(id, n, true))
+		wctx, cancel := context.WithTimeout(e.bg, 5*time.Second)
+		p, err := ch.NextPackage(wctx, true)
+		cancel()
+		if err != nil {
+			return vh.Failf("C12/response-not-routed", "%s (id %d): the response the server sent for that id did not arrive: %v", where, id, err)
+		}
+		if rs, ok := p.(*tds.ReturnStatusPackage); !ok || rs.ReturnValue != int32(n&0xffff) {
+			return vh.Failf("C12/response-not-routed", "%s (id %d): received %v, sent was return status %d", where, id, p, n&0xffff)
+		}
+		// the end-of-message DONE the channel adds (queued right after the package)
+		wctx, cancel = context.WithTimeout(e.bg, 2*time.Second)
+		_, _ = ch.NextPackage(wctx, true)
+		cancel()
+		open = append(open, ch)
+		if len(open) > c.Open {
+			var cerr error
+			if !within(5*time.Second, func() { cerr = open[0].Close() }) || cerr != nil {
+				return vh.Failf("C12/close", "%s: Close of channel %d: %v", where, open[0].VerifID(), cerr)
+			}
+			open = open[1:]
+		}
+	}
+	e.srv.mu.Lock()
+	problems := append([]string{}, e.srv.problems...)
+	e.srv.mu.Unlock()
+	if len(problems) > 0 {
+		return vh.Failf("C12/peer-sees-wrong-packets", "%+v: %s", c, problems[0])
+	}
+	for e.conn.VerifConnErr() != nil {
+		return vh.Failf("C12/connection-error", "%+v: the connection reported an error", c)
+	}
+	vh.Label(fmt.Sprintf("lifecycle:channels-over-time>=%d", c.Total/100*100))
+	vh.NonTrivial(fmt.Sprintf("%+v", c))
+	return nil
+}
+
+func TestManyChannelsOverTime(t *testing.T) {
+	gen := func(rt *rapid.T) manyCase {
+		c := manyCase{Total: rapid.SampledFrom([]int{40, 130, 260, 300, 520}).Draw(rt, "total"), Open: rapid.IntRange(1, 16).Draw(rt, "open"), Procs: rapid.SampledFrom([]int{1, 4}).Draw(rt, "procs")}
+		if vh.Thorough() && rapid.IntRange(0, 9).Draw(rt, "long") == 0 {
+			c.Total = rapid.SampledFrom([]int{1030, 4100, 33000}).Draw(rt, "total2")
+		}
+		return c
+	}
+	vh.Check(t, "TestManyChannelsOverTime", vh.N(4, 40), gen, runManyChannels)
 }
